@@ -108,6 +108,7 @@ fn main() {
             std::process::exit(if bad { 1 } else { 0 });
         }
         "transcript-dump" => {
+            vharness::checks::common::quiet_panics();
             let section = args.get(2).cloned().unwrap_or_else(|| usage());
             let block: u64 = args.get(3).and_then(|s| s.parse().ok()).unwrap_or_else(|| usage());
             print!("{}", vharness::transcript::dump_block(&section, block));
